@@ -95,6 +95,7 @@ func loadWorld(repo, goarch, tags string) (*World, error) {
 		return nil, &LoadError{"root package or tunnelpb not found"}
 	}
 	w.Fset = w.Root.Fset
+	computeUniqueEmbedding(w.Root.Types)
 	prog, _ := ssautil.Packages(pkgs, ssa.InstantiateGenerics)
 	prog.Build()
 	w.Prog = prog
